@@ -3,6 +3,7 @@ package h
 import (
 	"bytes"
 	"context"
+	"errors"
 	"fmt"
 	"io"
 	"os"
@@ -129,6 +130,8 @@ type outStub struct {
 	sends    []*c06send
 	attempts []*c06attempt
 	src      *simredis.SourceImpl
+	failSP   int // the next failSP start-point requests fail: the target cannot be reached (fault)
+	failedSP int
 }
 
 func (o *outStub) StartPoint(ctx context.Context, runIds []string) (syncer.StartPoint, error) {
@@ -136,6 +139,14 @@ func (o *outStub) StartPoint(ctx context.Context, runIds []string) (syncer.Start
 	defer o.mu.Unlock()
 	var sp syncer.StartPoint
 	sp.Initialize()
+	if o.failSP > 0 {
+		o.failSP--
+		o.failedSP++
+		if w := simrt.Cur(); w != nil {
+			w.Logf("output.StartPoint(%v) -> error: the target cannot be reached", shortIDs(runIds))
+		}
+		return sp, errors.New("dial tcp 10.0.0.1:6379: connect: no route to host")
+	}
 	for _, id := range runIds {
 		if id != "" && id == o.stored.RunId {
 			sp = syncer.StartPoint{DbId: 0, RunId: o.stored.RunId, Offset: o.stored.Offset}
@@ -256,21 +267,22 @@ func shortIDs(ids []string) []string {
 }
 
 type c06sim struct {
-	r         *Run
-	src       *simredis.Server
-	si        *simredis.SourceImpl
-	stub      *outStub
-	cur       *history
-	prev      *history // previous history exposed as replid2 (nil if none)
-	snaps     map[string]snapInfo
-	nSnap     int
-	ri        *syncer.RedisInput
-	riDone    chan error
-	ch        syncer.Channel
-	viol      *Violation
-	hist      map[string]*history
-	epoch1    bool
-	killsLeft int
+	r           *Run
+	src         *simredis.Server
+	si          *simredis.SourceImpl
+	stub        *outStub
+	cur         *history
+	prev        *history // previous history exposed as replid2 (nil if none)
+	snaps       map[string]snapInfo
+	nSnap       int
+	ri          *syncer.RedisInput
+	riDone      chan error
+	ch          syncer.Channel
+	viol        *Violation
+	hist        map[string]*history
+	epoch1      bool
+	spFailsLeft int
+	killsLeft   int
 }
 
 type snapInfo struct {
@@ -388,6 +400,37 @@ func (c *c06sim) step() {
 				}
 			}
 		}})
+	}
+	if c.epoch1 && c.spFailsLeft > 0 && len(c.stub.sends) > 0 {
+		// the source connection is lost while the target cannot be reached: the start-point request of the reconnect
+		// fails, every retry of it too. The input must give the round up (the tool restarts it) - it has no way to
+		// know where the target stands, least of all from what it was told at an earlier connection
+		acts = append(acts, act{"source connection lost, target unreachable", 1, func() {
+			c.spFailsLeft--
+			r.W.Fault("target_unreachable_at_reconnect")
+			c.stub.mu.Lock()
+			c.stub.failSP = 3 + s.Choose("spfails", 3)
+			c.stub.mu.Unlock()
+			for _, ss := range c.src.Sessions {
+				if !ss.Dead {
+					c.src.KillSession(ss, 0)
+				}
+			}
+		}})
+	}
+	if c.ri != nil && c.stub.failedSP > 0 {
+		select {
+		case err := <-c.riDone:
+			// the input gave up (ErrBreak): what runs the input (the leader loop of cmd) starts it again
+			r.Logf("input ended: %v; started again", err)
+			simrt.Probe("c06_input_gave_up_and_was_restarted")
+			c.ri = nil
+			c.stub.mu.Lock()
+			c.stub.failSP = 0
+			c.stub.mu.Unlock()
+			c.startInput()
+		default:
+		}
 	}
 	acts = append(acts, act{"idle", 4, func() {
 		d := []time.Duration{10 * time.Millisecond, 100 * time.Millisecond, 700 * time.Millisecond, 2100 * time.Millisecond}[s.Biased("idle", 4, 1, 2)]
@@ -594,6 +637,7 @@ func runC06(r *Run, stratum string) *Violation {
 	c.stub.carried = ""
 	c.epoch1 = true
 	c.killsLeft = g.Choose("epoch1kills", 3)
+	c.spFailsLeft = g.Choose("epoch1spfails", 2)
 	r.Sample = fmt.Sprintf("%s: position before %s@%d, now %s@%d, source id=%s id2=%s second=%d backlog=(%d,%d]", desc, shortID(positionBefore.RunId), positionBefore.Offset,
 		shortID(c.stub.stored.RunId), c.stub.stored.Offset, shortID(c.src.Repl.ID), shortID(c.src.Repl.ID2), c.src.Repl.SecondOffset, c.src.Repl.BacklogStart, c.src.Repl.End())
 	r.Logf("TRANSITION %s", r.Sample)
